@@ -31,7 +31,7 @@ impl FeatureIter {
             #[doc=#doc_inner]
             #[inline]
             #vis fn #ident_iter_fn() -> #ident_iter_struct {
-                use ::core::iter::IntoIterator;
+                use ::core::iter::IntoIterator as _;
                 #ident_iter_struct {
                     inner: [ #(Self::#enums),* ].into_iter()
                 }
